@@ -162,7 +162,8 @@ def h_desired(env, ops, n, outcome, init, func_ops=None, control_kind=None, cana
     circ = Circuit(gates, n_qubits=n, cmeasure_control=cm)
     b = make_backend(env)
     psi = env.state(n, "psi") if init else R.basis_state(n, 0)
-    kw = dict(initial_statevector=as_array(env, psi)) if init else {}
+    arr0 = as_array(env, psi) if init else None
+    kw = dict(initial_statevector=arr0) if init else {}
     phi, applied = run_branch(B, ops, n, psi, list(outcome), func_ops)
     pb = norm2(phi)
     if (isinstance(pb, Sym) and pb.p.is_zero()) or (not isinstance(pb, Sym) and abs(complex(pb)) < 1e-28):
@@ -185,6 +186,9 @@ def h_desired(env, ops, n, outcome, init, func_ops=None, control_kind=None, cana
                 n_sims = cm.finalized + 1       # whatever the first run did, the run under test adds exactly one finalize()
                 del cm.seen[:]
     freqs, sv = b.simulate(circ, return_statevector=True, desired_meas_result=outcome, **kw)
+    if init:
+        # the initial statevector is the caller's array (e.g. reused for the next outcome string): it is not projected in place
+        env.check_vec_eq([arr0[i] for i in range(2 ** n)], list(psi), "the caller's initial_statevector array is unchanged by simulate(desired_meas_result=...)")
     if canary:
         phi = [phi[0]] + [-x for x in phi[1:]]
     P = circ.success_probabilities
